@@ -384,6 +384,9 @@ def membership_tree(r):
     from cklgen import history
     kind = r.choice(["list", "list", "set", "map", "str"])
     atoms = [("int", r.randint(0, 4)) for _ in range(4)] + [("str", x) for x in ("a", "b", "")] + [("bool", True), rv.NULL, ("dec", 2.0), ("int", 2)]
+    if r.random() < 0.3:
+        # equal values spelled differently, inside lists: [1] == [1.0]
+        atoms += [("list", (("int", 1),)), ("list", (("dec", 1.0),)), ("list", (("dec", 0.0),)), ("list", (("dec", -0.0),)), ("list", (("list", (("int", 2),)),)), ("list", (("list", (("dec", 2.0),)),))]
     r.shuffle(atoms)
     n = r.randint(0, 4)
     if kind == "list":
